@@ -3,8 +3,9 @@ From V.gen Require Consts.
 From V.common Require Import Wire Varint Protobuf.
 From V.C18 Require Model.
 From V.C03 Require Model.
-From V.C19 Require Import Formats Model Utf8Proofs Proofs MsProofs Net NetProofs.
-From V.C19 Require Sites.
+From V.C19 Require Import Formats Model Utf8Proofs Proofs MsProofs Net NetProofs Consume ConsumeProofs.
+From V.C18 Require Addr.
+From V.C19 Require Sites PanicSites.
 From V.gen Require DecodeSites.
 Import ListNotations.
 Open Scope N_scope.
@@ -209,6 +210,49 @@ Check (C19_mdns_own_name_ignored :
   forall user o answers extra,
   Forall (fun a => names_eqb (ma_name a) SERVICE_NAME = false \/ ma_ptr a = None \/ ma_ptr a = Some [user]) answers ->
   nlist_eqb user user = true -> mdns_response user o answers extra = []).
+Check (C19_peer_id_convertible :
+  forall b p, V.C18.Model.of_bytes b = Some p ->
+  convertible p = true /\ convert_peer_id p = Some (V.C18.Model.to_bytes p)).
+Check (C19_conversion_boundary :
+  (forall p, convertible p = V.C18.Model.admits p) /\
+  (forall p, V.C18.Model.admits p = false -> convert_peer_id p = None) /\
+  (let p := V.C18.Model.mkPid 0 (repeat 1 43) in
+   V.C18.Model.mh_parse (V.C18.Model.mh_to_bytes p) = Some p /\ convert_peer_id p = None /\
+   V.C18.Model.of_bytes (V.C18.Model.mh_to_bytes p) = None)).
+Check (C19_ed25519_peer_convertible :
+  forall k, length k = 32%nat -> convertible (ed25519_peer k) = true).
+Check (C19_inline_key_fits :
+  inline_fits = true).
+Check (C19_kad_decoded_usable :
+  forall k o b m, kad_from_bytes k o b = Some m -> kad_usable m = true).
+Check (C19_kad_update_peers_convertible :
+  forall k o b m local from e p, kad_from_bytes k o b = Some m ->
+  In e (kad_response local from m) -> In p (kev_pids e) -> convertible p = true).
+Check (C19_kad_update_peers_spec :
+  forall local ps,
+  (forall p, In p (update_peers local ps) -> In p (map kp_pid ps) /\ pid_is local p = false) /\
+  (length (update_peers local ps) <= length ps)%nat).
+Check (C19_kad_request_events :
+  forall k o b m from e, kad_from_bytes k o b = Some m -> In e (snd (kad_request from m)) ->
+  (forall p, In p (kev_pids e) -> convertible p = true) /\
+  match e with KevUpdate _ => False | _ => True end).
+Check (C19_record_has_id_parsed :
+  forall b cs, maddr_parse b = Ok cs -> V.C18.Addr.ends_with_p2p cs = true -> record_has_id b = true).
+Check (C19_record_has_id_appended :
+  forall b cs x p, maddr_parse b = Ok cs -> V.C18.Model.of_bytes x = Some p ->
+  exists rb, V.C18.Addr.record_new_bytes p b = Some rb /\ record_has_id rb = true).
+Check (C19_negotiated_in_set :
+  forall names payload hdr, negotiated_in_set names (wl_negotiate names payload hdr) = true).
+Check (C19_sock_parse_ws_shape :
+  forall cs, sock_parse true cs = true ->
+  exists h t w r, cs = h :: t :: w :: r /\ is_host (fst h) = true /\ fst t = TCP /\ is_ws (fst w) = true).
+Check (C19_panic_sites_match :
+  map PanicSites.site_of PanicSites.table = DecodeSites.panic_sites).
+Check (C19_panic_sites_classified :
+  forallb PanicSites.entry_ok PanicSites.table = true /\
+  forallb (fun e => negb (PanicSites.conversion_entry e) ||
+                    match PanicSites.cls_of e with PanicSites.PV => true | PanicSites.PL => true | _ => false end)
+          PanicSites.table = true).
 Check (C19_sites_match :
   map (fun e => fst (fst e)) Sites.table = DecodeSites.sites).
 Check (C19_sites_kinds_ok :
